@@ -7,6 +7,8 @@ import Ogorek.Pvm
 import Ogorek.CPickle
 import Ogorek.CPickleOK
 import Ogorek.CPickleS
+import Ogorek.Py2Repr
+import Ogorek.Lemmas.PkRT
 import Ogorek.Generated.IsPrint
 
 /-!
@@ -415,9 +417,13 @@ def handle (line : String) : String :=
              else if framed == "O" then cpDumpsS mzO false p v else cpDumpsS all false p v) with
       | some bs =>
         let flag (pd : Bool) : String := if pkOKb { pyDict := pd, su := false } (erase v) then "1" else "0"
-        "OK " ++ hexOfBytes bs ++ " " ++ flag false ++ flag true
+        "OK " ++ hexOfBytes bs ++ " " ++ flag false ++ flag true ++ (if pyOKb (erase v) then "1" else "0")
       | none => "UNMODELLED"
     | _, _ => "BADCASE"
+  | ["py2repr", hex] =>      -- repr of a Python-2 str (the STRING argument Python 2's pickler writes)
+    match bytesOfHex? hex with
+    | some bs => "OK " ++ hexOfBytes (py2repr bs)
+    | none => "BADCASE"
   | ["pvm", hex] =>
     match bytesOfHex? hex with
     | some bs =>
